@@ -284,7 +284,10 @@ def main(argv: List[str]) -> int:
     all_mods = [importlib.import_module("harness." + m) for m in PROPS[prop]]
     encoded = sorted({f for m in all_mods for f in getattr(m, "ENCODED", [])})
     assumptions = sorted({a for m in all_mods for a in getattr(m, "ASSUMPTIONS", [])})
-    bounds = {h: meta[(m, h)].get("bounds", {}).get(tier, meta[(m, h)].get("bounds")) for (m, h) in meta}
+    bounds = {}
+    for (m, h) in meta:
+        b = meta[(m, h)].get("bounds", "")
+        bounds[h] = b.get(tier, b.get("quick")) if isinstance(b, dict) else b
     exhaustive = not inconclusive and not harness_errors and not violations
     ev = {
         "property_id": prop,
